@@ -463,4 +463,93 @@ theorem specParentFull_plain (cfg : Cfg) (ls : List Str)
         simp [coverM, hm hios x (List.mem_of_getElem? hx)]) (by omega)
     simp [hM]
 
+/-! ## the stretches, read position by position -/
+
+/-- the `k`-th line after a banner start (`k ≥ 1`) is in its stretch iff it exists and none
+of the `k - 1` lines before it contains the delimiter -/
+theorem bannerLinkLen_spec (d : Char) (rest : List Str) (k : Nat) :
+    k + 1 ≤ bannerLinkLen d rest ↔
+      k < rest.length ∧ ∀ m y, m < k → rest[m]? = some y → (strip y).contains d = false := by
+  induction rest generalizing k with
+  | nil => simp [bannerLinkLen]
+  | cons y rest ih =>
+    unfold bannerLinkLen
+    cases k with
+    | zero =>
+      split <;> simp
+    | succ k =>
+      by_cases hc : (strip y).contains d = true
+      · simp only [hc, if_true]
+        constructor
+        · intro h; omega
+        · rintro ⟨_, h⟩
+          have := h 0 y (by omega) rfl
+          rw [hc] at this; cases this
+      · simp only [hc, Bool.false_eq_true, if_false]
+        have : k + 1 + 1 ≤ 1 + bannerLinkLen d rest ↔ k + 1 ≤ bannerLinkLen d rest := by omega
+        rw [this, ih]
+        simp only [List.length_cons]
+        constructor
+        · rintro ⟨h1, h2⟩
+          refine ⟨by omega, fun m z hm hz => ?_⟩
+          cases m with
+          | zero => simp at hz; subst hz; simpa using hc
+          | succ m => exact h2 m z (by omega) (by simpa using hz)
+        · rintro ⟨h1, h2⟩
+          exact ⟨by omega, fun m z hm hz => h2 (m + 1) z (by omega) (by simpa using hz)⟩
+
+/-- the `k`-th line after a macro start (`k ≥ 1`) is in its stretch iff it exists and none of
+the `k - 1` lines before it is `@` -/
+theorem macroBodyLen_spec (rest : List Str) (k : Nat) :
+    k + 1 ≤ macroBodyLen rest ↔
+      k < rest.length ∧ ∀ m y, m < k → rest[m]? = some y → (rstrip y == ['@']) = false := by
+  induction rest generalizing k with
+  | nil => simp [macroBodyLen]
+  | cons y rest ih =>
+    unfold macroBodyLen
+    cases k with
+    | zero =>
+      split <;> simp
+    | succ k =>
+      by_cases hc : (rstrip y == ['@']) = true
+      · simp only [hc, if_true]
+        constructor
+        · intro h; omega
+        · rintro ⟨_, h⟩
+          have := h 0 y (by omega) rfl
+          rw [hc] at this; cases this
+      · simp only [hc, Bool.false_eq_true, if_false]
+        have : k + 1 + 1 ≤ 1 + macroBodyLen rest ↔ k + 1 ≤ macroBodyLen rest := by omega
+        rw [this, ih]
+        simp only [List.length_cons]
+        constructor
+        · rintro ⟨h1, h2⟩
+          refine ⟨by omega, fun m z hm hz => ?_⟩
+          cases m with
+          | zero => simp at hz; subst hz; simpa using hc
+          | succ m => exact h2 m z (by omega) (by simpa using hz)
+        · rintro ⟨h1, h2⟩
+          exact ⟨by omega, fun m z hm hz => h2 (m + 1) z (by omega) (by simpa using hz)⟩
+
+/-- the parent of every line of the final tree -/
+theorem parse_parentOf (cfg : Cfg) (ls : List Str) (j : Nat) (hj : j < (parse cfg ls).size) :
+    parentOf (parse cfg ls) j = specParentFull cfg (parse cfg ls).texts j := by
+  have h := parse_is_link cfg ls
+  conv => lhs; rw [h]
+  exact link_parentOf cfg _ j hj
+
+theorem specParentFull_of_owner (cfg : Cfg) (ls : List Str) (i s : Nat)
+    (hs : macroOwner cfg ls i = some s ∨ (macroOwner cfg ls i = none ∧ bannerOwner ls i = some s)) :
+    specParentFull cfg ls i = s ∧ s < i := by
+  unfold specParentFull
+  rcases hs with hm | ⟨hm, hb⟩
+  · rw [hm]
+    refine ⟨rfl, ?_⟩
+    unfold macroOwner at hm
+    split at hm
+    · exact lastCover_lt _ _ _ _ _ hm
+    · cases hm
+  · rw [hm, hb]
+    exact ⟨rfl, lastCover_lt _ _ _ _ _ hb⟩
+
 end Ccp.Tree
